@@ -82,19 +82,29 @@ def strip_lean_comments(txt):
     return ''.join(out)
 
 
-def audit_sources():
-    """No sorry/admit/axiom/native_decide/... outside comments in any model/proof/property file."""
+def import_closure(mods):
+    """Project-local modules reachable through `import` from the given modules."""
+    seen, todo = [], list(mods)
+    while todo:
+        m = todo.pop()
+        if m in seen:
+            continue
+        p = os.path.join(LEAN, m.replace('.', '/') + '.lean')
+        if not os.path.exists(p):
+            continue
+        seen.append(m)
+        for imp in re.findall(r'^import\s+(\S+)', open(p).read(), re.M):
+            todo.append(imp)
+    return seen
+
+
+def audit_sources(pid):
+    """No sorry/admit/axiom/native_decide/... outside comments in anything the property module or the driver imports."""
     bad = []
-    for root in ('XcpModel', 'XcpProofs', 'XcpProps'):
-        for dp, _, fns in os.walk(os.path.join(LEAN, root)):
-            for fn in fns:
-                if fn.endswith('.lean'):
-                    p = os.path.join(dp, fn)
-                    for m in FORBIDDEN.finditer(strip_lean_comments(open(p).read())):
-                        bad.append(f"{p}: {m.group(0).strip()}")
-    for p in (LEAN + '/Main.lean',):
-        for m in FORBIDDEN.finditer(strip_lean_comments(open(p).read())):
-            bad.append(f"{p}: {m.group(0).strip()}")
+    for m in sorted(import_closure([f'XcpProps.{pid}', 'Main'])):
+        p = os.path.join(LEAN, m.replace('.', '/') + '.lean')
+        for mm in FORBIDDEN.finditer(strip_lean_comments(open(p).read())):
+            bad.append(f"{p}: {mm.group(0).strip()}")
     return bad
 
 
@@ -110,7 +120,8 @@ def check_proofs(pid, thorough=False):
     """Build the property module and print the axioms of each of its theorems.
     Returns dict(obligations, discharged, failed=[...], axioms={thm: [...]}, log)."""
     res = dict(obligations=0, discharged=0, failed=[], axioms={}, log='', theorems=[])
-    bad = audit_sources()
+    bad = audit_sources(pid)
+    res['modules'] = sorted(import_closure([f'XcpProps.{pid}']))
     ok, out = build_lean([f'XcpProps.{pid}', 'xcpmodel'])
     thms = property_theorems(pid)
     res['theorems'] = thms
